@@ -738,7 +738,7 @@ func RegisterRule(w *World, b *Backend, r *Result, rule string) {
 		found := false
 		if mf != nil {
 			for _, em := range mf.Emissions {
-				if strings.Contains(em.T.String(), "$⟨#(index(FuncStart.params)+1)⟩") {
+				if ts := em.T.String(); strings.Contains(ts, "$⟨#(index(FuncStart.params)+1)⟩") || strings.Contains(ts, "${⟨#(index(FuncStart.params)+1)⟩}") {
 					found = true
 					ppos = w.Pos(em.Pos)
 				}
@@ -1211,5 +1211,80 @@ func PopRule(w *World, role string, r *Result, rule string, openers ...string) {
 	}
 	if len(fields) == 0 {
 		r.Bad(rule, "pop:"+role+":none", "-", "no construct stack found in the converter")
+	}
+}
+
+// PositionalRule (Bash): a positional parameter whose index is computed ($<n>) must be
+// written ${<n>}: "$10" is ${1} followed by the character 0, so the tenth and later
+// parameters of a function receive the first argument with a digit appended.
+func PositionalRule(w *World, b *Backend, r *Result, rule string) {
+	n := 0
+	var names []string
+	for m := range b.X.Methods {
+		names = append(names, m)
+	}
+	sort.Strings(names)
+	for _, name := range names {
+		mf := b.X.Methods[name]
+		var rec func(t Tmpl) (int, string)
+		rec = func(t Tmpl) (int, string) {
+			cnt, bad := 0, ""
+			for i, p := range t {
+				switch x := p.(type) {
+				case Alt:
+					for _, o := range x.Opts {
+						c, bd := rec(o)
+						cnt += c
+						if bd != "" {
+							bad = bd
+						}
+					}
+				case Rep:
+					c, bd := rec(x.Body)
+					cnt += c
+					if bd != "" {
+						bad = bd
+					}
+				case Join:
+					c, bd := rec(x.Elem)
+					cnt += c
+					if bd != "" {
+						bad = bd
+					}
+				case Num:
+					if i == 0 {
+						continue
+					}
+					l, ok := t[i-1].(Lit)
+					if !ok {
+						continue
+					}
+					switch {
+					case strings.HasSuffix(l.S, "${"):
+						cnt++
+					case strings.HasSuffix(l.S, "$") && !strings.HasSuffix(l.S, "\\$"):
+						cnt++
+						bad = t.String()
+					}
+				}
+			}
+			return cnt, bad
+		}
+		for _, em := range mf.Emissions {
+			c, bad := rec(em.T)
+			if c == 0 {
+				continue
+			}
+			n++
+			key := fmt.Sprintf("positional:%s:%s", b.Role, name)
+			if bad != "" {
+				r.Bad(rule, key, w.Pos(em.Pos), "positional parameter with a computed index written without braces: from the tenth parameter on, $1 followed by a digit is read instead — "+bad)
+			} else {
+				r.Ok(rule, key, w.Pos(em.Pos), "computed positional parameter index is braced: "+em.T.String())
+			}
+		}
+	}
+	if n == 0 {
+		r.Bad(rule, "positional:"+b.Role+":none", "-", "no positional parameter with a computed index found (function parameters are expected to be bound from $1 …)")
 	}
 }
